@@ -333,9 +333,12 @@ def prepare_layout(res, tier, rng):
         texts = [D.render(deck, None)]
         for _ in range(2):
             texts.append(D.render(deck, D.Layout(rng, numbers=False)))
-        bad_text, kind = malform(rng, rng.choice(texts))
-        res.count('layout:malformed:' + kind)
-        for text in texts + [bad_text]:
+        bad_texts = []
+        for _ in range(4):
+            bad_text, kind = malform(rng, rng.choice(texts))
+            res.count('layout:malformed:' + kind)
+            bad_texts.append(bad_text)
+        for text in texts + bad_texts:
             add('front_all', text)
             out = I.f_front(text)
             if I.f_front_file(text) != out:
@@ -378,7 +381,7 @@ def prepare_layout(res, tier, rng):
 
     def finish(bad):
         res.obligation(f'tie:layout ({len(uniq)} distinct calls on {n_decks} '
-                       'decks x 3 layouts + 1 malformed: blocks, get_cards, '
+                       'decks x 3 layouts + 4 malformed: blocks, get_cards, '
                        'splits, option tokens, front)', not bad,
                        f'{len(bad)} disagreements')
         for k in bad[:8]:
@@ -478,6 +481,8 @@ def run_sweep(res, tier, rng):
                           {'input': {'deck': base_text, 'rewrite': base_text,
                                      'args': list(args)}}, found_input=True)
         res.count('sweep:base:' + (base[0] if base[0] == 'ok' else str(base[1])))
+        for feat in D.features(deck):
+            res.count('sweep:deck:' + feat)
         if base[0] == 'ok':
             n_ok += 1
         else:
